@@ -329,6 +329,8 @@ func hugeSequences(fns []string) []caseH2CSeq {
 		// a message of 2^31 + 128 bytes (zeros, backed by an untouched mapping: no memory, two passes of SHA-256 over 2 GiB), then
 		// ordinary calls: lengths that do not fit 31 bits
 		out = append(out, caseH2CSeq{Steps: []h2cStep{{Fn: fn, Msg: "616263", Dst: d16}, {Fn: fn, Dst: d16, MsgLen: twoGiBPlus()}, {Fn: fn, Msg: "616263", Dst: d16}}})
+		// and one of 2^32 + 37 bytes (lengths that do not fit 32 bits; four passes of SHA-256 over 4 GiB in all)
+		out = append(out, caseH2CSeq{Steps: []h2cStep{{Fn: fn, Dst: d16, MsgLen: 2*(twoGiBPlus()-128) + 37}, {Fn: fn, Msg: "616263", Dst: d300}}})
 	}
 	if os.Getenv("VERIF_TIER") == "thorough" {
 		out = append(out, caseH2CSeq{Steps: []h2cStep{{Fn: fn, Msg: "616263", Dst: d300}, {Fn: fn, Msg: "616263", Dst: d16}, {Fn: fn, Msg: "616264", Dst: d16, SleepMs: 125000},
